@@ -78,6 +78,15 @@ CHECKS = {
             "displacement at the bound, re-scoring of exactly the address used, rediscovery never changes a score, dial(peer) opens a top-k by score within free capacity.",
             "Scores are read through a verif accessor; strict eviction/rediscovery checks are applied to single-address inserts.",
             "DESIGN.md §3 C10"),
+    "C13": ("fault_enumeration",
+            "request ledger over real nodes (loopback TCP, fault proxy with resets/chunking/delay, chaos executor, scripted requester and responder)",
+            "Scenarios vary the target state (connected, known, unknown, unreachable), dial options, bursts of concurrent requests, payload sizes around the maximum, "
+            "responder behaviour per request (answer, delayed, reject, stall, late, oversize, connection reset), cancellations at random moments and the inbound "
+            "concurrency limit; every call and event is stamped at the user boundary; oracle: at most one terminal event per request id, exactly one within "
+            "4 x (dial timeout + 2 x request timeout) unless cancelled, response bytes equal what the responder supplied for that nonce, responder sees each nonce once, "
+            "fresh unanswered inbound requests within the configured bound.",
+            "Real time: a scheduler-lag canary downgrades starved runs to inconclusive; held = on the scenarios run.",
+            "DESIGN.md §3 C13"),
     "C14": ("exploration",
             "brute-force XOR oracle over routing-table dumps (hook) + structural invariants on random histories with crafted keys covering all 256 buckets",
             "Histories of inserts (crafted keys through the real entry()), public mutators, connection-state changes, dial failures and pure look-ups; after every "
@@ -107,6 +116,15 @@ CHECKS = {
             "Trusts libp2p-identity 0.2 / multiaddr 0.18 as the reference; says nothing about inputs not generated.",
             "DESIGN.md §3 C18"),
 }
+
+CHECKS["C20"] = ("exploration",
+            "cid-recomputation oracle on the real Bitswap inbound handler + lossless bounded batching oracle on the real send_response over in-memory yamux",
+            "Inbound: hand-encoded wire messages (all 12 supported hashers recomputed independently, unsupported codes, CID versions/codecs, malformed prefixes, "
+            "tampered payloads) go through the real on_message_received; every delivered block must equal the wire bytes and hash to its cid. Outbound: random "
+            "response sets through the real send_response into a real Substream read raw: every frame <= 4 MiB, blocks that fit a message exactly once and in order, "
+            "presences exactly once; extract_next_batch against a reference batching model.",
+            "'fits a message' is read as the 2 MiB batch limit; sha3/keccak/blake2b are recomputed with in-harness implementations checked against known answers.",
+            "DESIGN.md §3 C20")
 
 NOT_YET = {}
 
